@@ -22,7 +22,7 @@ func init() {
 			"non-trivial = the body has >= 1 block and >= 3 items and the schema matches some but not all items; distinct by logical content + schema",
 		Assumptions: []string{"the number of 'unsupported' diagnostics is not compared across syntaxes (JSON reports per property, native per item); error-ness and the diagnostic multiset within one implementation are"},
 		Quick:       Plan{Batches: 16, PerBatch: 4000, MinNonTrivial: 20000},
-		Thorough:    Plan{Batches: 64, PerBatch: 10000, MinNonTrivial: 150000},
+		Thorough:    Plan{Batches: 64, PerBatch: 80000, MinNonTrivial: 150000},
 		Case:        c04Case,
 	})
 }
